@@ -14,6 +14,7 @@ CONSTANTS
   MaxOps = 4
   AllowRemove = FALSE
   Interval = 0
+  Interval2 = 0
   NC = 2
   MainRes = {"void", "val", "exc", "drop"}
   MainVia = {"direct", "queued"}
